@@ -630,6 +630,11 @@ func (w *world) apply(s *slot, o op, pos int) (out outcome) {
 		}
 		w.modelWrite(s, sh, o.Lane, d[:n])
 		data := append([]byte(nil), d[:n]...)
+		if o.API == apiReg && (sh.cls == clsS || sh.cls == clsV) && n+8 <= len(d) {
+			// the raw register write gets a buffer that is 8 bytes longer than the operand (a caller's scratch buffer):
+			// only the operand's bytes may be stored, the rest is junk (exactly sized buffers stay covered by WriteOperandBytes)
+			data = append([]byte(nil), d[:n+8]...)
+		}
 		out.panicMsg = safely(func() {
 			switch o.API {
 			case apiOperand:
